@@ -128,17 +128,18 @@ class Engine:
         viol = []
         consumed = 0
         for l in out.splitlines():
-            if l.startswith('<<"VIOL"'):
-                m = re.match(r'<<"VIOL", (\d+), "([^"]*)", "([^"]*)", "([^"]*)"(?:, (.*))?>>', l)
-                if not m:
-                    raise ToolError("unparsable VIOL record (monitors must print scalar details only): " + l[:200])
-                if m:
-                    viol.append({"line": int(m.group(1)), "id": m.group(2), "property": m.group(3), "guard": m.group(4),
-                                 "detail": m.group(5) or "", "trace": path})
+            if "VIOL" in l and not l.lstrip('"').startswith("VIOL|"):
+                raise ToolError("unexpected VIOL output format: " + l[:200])
+            if l.lstrip('"').startswith("VIOL|"):
+                parts = l.strip().strip('"').split("|")
+                if len(parts) < 6:
+                    raise ToolError("unparsable VIOL record: " + l[:200])
+                viol.append({"line": int(parts[1]), "id": parts[2], "property": parts[3], "guard": parts[4],
+                             "detail": "|".join(parts[5:]), "trace": path})
             elif l.startswith('<<"TRACE-CONSUMED"'):
                 consumed = int(re.findall(r"\d+", l)[0])
         if consumed == 0:
-            keep = [l for l in out.splitlines() if not TLC_NOISE.match(l) and not l.startswith('<<"VIOL"')]
+            keep = [l for l in out.splitlines() if not TLC_NOISE.match(l) and "VIOL|" not in l]
             return viol, 0, "\n".join(keep[-25:])
         return viol, consumed, ""
 
@@ -167,6 +168,8 @@ class Engine:
                 elif ev == "reset":
                     s = e.get("s", {})
                     self.cov["scenario:%s/%s" % (s.get("framing", e.get("kind", "-")), s.get("faultKind", "-"))] += 1
+                elif ev == "op":
+                    self.cov["op:%s" % (e.get("op") or ["?"])[0]] += 1
                 elif ev == "mpart":
                     self.cov["mpart:%s/added=%s" % (e.get("res"), e.get("added"))] += 1
                 elif ev == "proxy":
@@ -321,7 +324,8 @@ class Engine:
         self.write_evidence(plan, len(unlisted), known_hits)
         print("%s %s: %d scenarios, %d events validated by TLC, %d model states, %d unlisted violation(s), %.1fs" % (
             self.pid, self.tier, self.n_scen, self.n_events, sum(m["distinct_states"] for m in self.mc_stats), len(unlisted), time.time() - self.t0))
-        shutil.rmtree(self.work, ignore_errors=True)
+        if not os.environ.get("VERIF_KEEP"):
+            shutil.rmtree(self.work, ignore_errors=True)
         return rc
 
     def write_evidence(self, plan, nviol, known_hits):
